@@ -73,8 +73,8 @@ CALLS = {
     'add_many_same': lambda: ((lambda Y: teneva.add_many([Y, Y, Y], e=1e-10)), (tt(),), {}),
     'orthogonalize_shared': lambda: (teneva.orthogonalize, (tt_shared(), 1), {}),
     'orthogonalize_shared_stab': lambda: (teneva.orthogonalize, (tt_shared(), 2), dict(use_stab=True)),
-    'orth_left_shared': lambda: (teneva.orthogonalize_left, (tt_shared(), 1), {}),
-    'orth_right_shared': lambda: (teneva.orthogonalize_right, (tt_shared(), 2), {}),
+    'orthogonalize_left_shared': lambda: (teneva.orthogonalize_left, (tt_shared(), 1), {}),
+    'orthogonalize_right_shared': lambda: (teneva.orthogonalize_right, (tt_shared(), 2), {}),
     'truncate_shared': lambda: (teneva.truncate, (tt_shared(), 1e-3), {}),
     'truncate_shared_svd': lambda: (teneva.truncate, (tt_shared(rho=1), 1e-3), dict(is_eigh=False)),
     'sum_shared': lambda: (teneva.sum, (tt_shared(),), {}),
@@ -128,6 +128,11 @@ CALLS = {
     'als_func_vld': lambda: (teneva.als_func, (X0.copy(), yX.copy(), tt([3, 3, 3], 2, 4)), dict(nswp=2, info={}, X_vld=X0[:5].copy(), y_vld=yX[:5].copy())),
     'anova': lambda: (teneva.anova, (I0.copy(), y0.copy()), dict(r=2, order=1, seed=1)),
     'anova2': lambda: (teneva.anova, (I0.copy(), y0.copy()), dict(r=3, order=2, seed=1)),
+    # another training set of the same size (the rows of the first one, reversed and shifted): whatever one call memoises
+    # about its samples must not be visible to the next
+    'anova2_other': lambda: (teneva.anova, (((I0[::-1] + 1) % np.array(n3)).copy(), y0[::-1].copy() * 2. + 1.), dict(r=3, order=2, seed=1)),
+    'anova_other': lambda: (teneva.anova, (((I0[::-1] + 1) % np.array(n3)).copy(), y0[::-1].copy() * 2. + 1.), dict(r=2, order=1, seed=1)),
+    'ANOVA_call_other': lambda: (lambda I, y, J: teneva.ANOVA(I, y, order=2, seed=1)(J), (((I0[::-1] + 1) % np.array(n3)).copy(), y0[::-1].copy() * 2. + 1., I0[:4].copy()), {}),
     'anova_func': lambda: (teneva.anova_func, (X0.copy(), yX.copy(), 3), {}),
     'ANOVA_call': lambda: (lambda I, y, J: teneva.ANOVA(I, y, order=2, seed=1)(J), (I0.copy(), y0.copy(), I0[:4].copy()), {}),
     'ANOVA_func_coeffs': lambda: (lambda X, y: teneva.ANOVA_func(X, y, 3).coeffs, (X0.copy(), yX.copy()), {}),
@@ -264,7 +269,7 @@ def base_name(call):
     for n in names:
         if call == n or call.startswith(n + '_'):
             return n
-    return None
+    return call
 
 
 def missing_exports():
